@@ -23,7 +23,7 @@ ASSUMPTIONS = ["yield points = shared file-system calls + condition operations; 
                "places where threads of this code base communicate (DESIGN.md 3.4/6)",
                "directory-level stat/mkdir are not scheduling points (they commute: directories are never removed)",
                "the sequential specification is the implementation run without preemption"]
-SYMPTOMS = {"deadlock", "outcome-not-sequential", "state-not-sequential"}
+SYMPTOMS = {"deadlock", "outcome-not-sequential", "state-not-sequential", "object-removed-while-referenced"}
 WATCHDOG_S = 7200
 
 
